@@ -73,10 +73,10 @@ impl Monitor for C01 {
         "cases = seeded random universes from families tiny/medium/conf/deep/hostile/big x hints x soft lists, each run synchronously and under 2 async schedules with random activity parameters; every Ok result is judged by the reference `valid` on the provider's own data and by the hook invariants (all clauses true, watch lists intact, trail reasons unit). distinct = content hash of (universe, problem); non-trivial = distinct case with an Ok result whose search had >= 1 conflict or restart (hook counters)".into()
     }
     fn cases(&self, tier: Tier) -> u64 {
-        tier.pick(24_000, 1_500_000)
+        tier.pick(192_000, 3_840_000)
     }
     fn floor(&self, tier: Tier) -> u64 {
-        tier.pick(300, 20_000)
+        tier.pick(1_200, 12_000)
     }
     fn generate(&self, r: &mut Rng, _tier: Tier, _i: u64) -> SolverCase {
         let (name, cfg) = pick_family(r, FAMILIES);
